@@ -281,6 +281,21 @@ func main() {
 		agg.Failures = append(agg.Failures, s.Failures...)
 	}
 	agg.Failures = append(agg.Failures, crashes...)
+	if prop == "C02" {
+		b := 8 * time.Second
+		if tier == "thorough" {
+			b = time.Duration(tc.BudgetS/6+5) * time.Second
+		}
+		fs := freePhase(*bin, prop, seed, b)
+		if len(fs.Infra) > 0 {
+			fmt.Fprintf(os.Stderr, "INFRASTRUCTURE ERROR in the free-running phase (not a verdict):\n%s\n", strings.Join(fs.Infra, "\n"))
+			os.Exit(2)
+		}
+		agg.Failures = append(agg.Failures, fs.Failed...)
+		agg.Probes["free-running-writer-workloads"] += fs.Runs
+		agg.Probes["free-running-write-requests"] += int(fs.Ops)
+		wall += fs.WallS
+	}
 	if len(agg.Infra) > 0 {
 		fmt.Fprintf(os.Stderr, "INFRASTRUCTURE ERROR inside runs (not a verdict):\n%s\n", strings.Join(agg.Infra, "\n"))
 		os.Exit(2)
@@ -493,6 +508,15 @@ func writeEvidence(verif, prop, tier string, seed uint64, cfg propCfg, a *summar
 }
 
 func doReplay(bin, prop, path string) int {
+	if rb, err := os.ReadFile(path); err == nil {
+		var rf struct {
+			Violation violation       `json:"violation"`
+			Scenario  json.RawMessage `json:"scenario"`
+		}
+		if json.Unmarshal(rb, &rf) == nil && strings.HasPrefix(rf.Violation.Rule, "free-running-") {
+			return freeReplay(bin, prop, path, rf.Scenario, rf.Violation.Rule)
+		}
+	}
 	out, err := os.CreateTemp("", "verif-replay-*.json")
 	if err != nil {
 		fmt.Fprintln(os.Stderr, err)
